@@ -365,7 +365,7 @@ def _wsgi_case(rec, cfg, hist):
 
 # ------------------------------------------------------------------ ASGI side
 
-async def a_apply(s, op):
+async def a_apply(s, op, slot):
     k = op[0]
     try:
         if k == 'read':
@@ -380,18 +380,32 @@ async def a_apply(s, op):
                     return ('runaway', out[:3])
             return ('ok', out)
         if k == 'iterk':
-            it = s.__aiter__()
+            # iteration abandoned after at most op[1] chunks; op[2]: what the application does next
+            #   'break'   leaves the `async for` with break (the generator stays suspended until it is finalized)
+            #   'none'    closes the iterator explicitly (aclose) and does nothing else
+            #   'exhaust' / 'close'  aclose, then stream.exhaust() / stream.close() (the documented clean-up)
             out, ended = [], False
-            for _ in range(op[1]):
-                try:
-                    out.append(await it.__anext__())
-                except StopAsyncIteration:
+            if op[2] == 'break':
+                if op[1] > 0:
                     ended = True
-                    break
-            await it.aclose()
+                    async for chunk in s:
+                        out.append(chunk)
+                        if len(out) >= op[1]:
+                            ended = False
+                            break
+            else:
+                it = s.__aiter__()
+                for _ in range(op[1]):
+                    try:
+                        out.append(await it.__anext__())
+                    except StopAsyncIteration:
+                        ended = True
+                        break
+                await it.aclose()
+            slot[1] = (list(out), ended)
             if op[2] == 'exhaust':
                 await s.exhaust()
-            else:
+            elif op[2] == 'close':
                 s.close()
             return ('ok', (out, ended))
         if k == 'exhaust':
@@ -421,52 +435,33 @@ class AsgiResource:
         c = CTX[0]
         for i, op in enumerate(c.hist):
             s = req.stream if i % 2 == 0 else req.bounded_stream     # one object, looked up again every time
-            c.log.append(None)                                        # operation started
-            r = await a_apply(s, op)
+            slot = ['started', None]                                  # operation started (+ partial progress)
+            c.log.append(slot)
+            r = await a_apply(s, op, slot)
             c.log[-1] = (r, _obs(s))
         resp.data = b'ok'
 
 
-def legal_asgi(hist):
-    """The documented rule: iteration and read() may only be mixed when one of them has completely
-    consumed the body first (otherwise exhaust()/close() must come in between)."""
-    clean = True
-    for op in hist:
-        k = op[0]
-        if k in ('iter', 'iterk'):
-            if not clean:
-                return False
-        elif k == 'read':
-            if op[1] is None or op[1] == -1:
-                clean = True
-            elif op[1] > 0:
-                clean = False
-        elif k in ('readall', 'exhaust', 'close'):
-            clean = True
-    return True
-
-
-def _abandoned_at_final_event(events, cl, k):
-    """Classifier for K_ABANDON: on an untouched stream the k-th chunk handed out by the iterator is the body of
-    the final http.request event (not the first event), Content-Length is not reached by it, and nothing follows
-    the final event in the script.  The iterator is then closed while suspended at that yield."""
-    if k < 1 or events[-1].get('type') != 'http.request' or events[-1].get('more_body', False):
-        return False
-    yielded = received = 0
+def _final_event_body(events):
+    """Body of the final http.request event when it is the last event of the script and not the first one."""
     for idx, e in enumerate(events):
         if e.get('type') != 'http.request':
-            return False
-        body = e.get('body', b'')
-        if cl is not None:
-            body = body[:max(cl - received, 0)]
-        received += len(body)
-        if body:
-            yielded += 1
-            if yielded == k:
-                return idx == len(events) - 1 and idx >= 1 and (cl is None or received < cl)
+            return None
         if not e.get('more_body', False):
-            return False
-    return False
+            return e.get('body', b'') if idx == len(events) - 1 and idx >= 1 else None
+    return None
+
+
+def _abandoned_on_final_event(m, events, cl, out, ended):
+    """Classifier for K_ABANDON (evaluated after the model took the chunks of an abandoned iteration): the last
+    chunk the iterator handed out is the whole body of the final http.request event (an event it received itself,
+    not the first event and not a buffered remainder, which is always shorter), the stream now stands at the end of
+    everything the server sent without having reached Content-Length, and nothing follows in the script.  The
+    iterator was left suspended at that yield, so the falsy more_body of the event was never recorded; the next
+    operation that needs data awaits receive()."""
+    fb = _final_event_body(events)
+    return bool(not ended and out and fb and out[-1] == fb and m.cur.pos == len(m.wire) and
+                (cl is None or len(m.wire) < cl))
 
 
 def _asgi_wit(cfg, hist):
@@ -514,27 +509,17 @@ def _asgi_case(rec, cfg, hist):
                 rec.count('class.asgi.event_without_more_body')
     # ---- liveness
     rec.count('mon.asgi.liveness')
-    done = [e for e in ctx.log if e is not None]
+    done = [e for e in ctx.log if isinstance(e, tuple)]
     if isinstance(res.exc, Runaway):
         # the alarm went off inside the coroutine (asyncio stores BaseExceptions in the task): the stream spins
         # without ever yielding to the loop, e.g. polling receive() after an http.disconnect
         rec.violation('runaway-no-termination', dict(wit0, step=len(done), op=hist[min(len(done), len(hist) - 1)],
                                                      receive_calls=res.receive_calls))
         raise StopCheck()
-    if res.outcome != 'done' or res.status != 200 or len(done) != len(hist) or res.problems:
-        i = len(done)
-        if res.outcome in ('blocked', 'steps') and i < len(hist):
-            key = None
-            if res.outcome == 'blocked' and hist[i][0] == 'iterk' and hist[i][2] == 'exhaust' and \
-                    _abandoned_at_final_event(events, cl, hist[i][1]) and \
-                    all(op[0] in ('read', 'exhaust') and (len(op) < 2 or op[1] == 0) for op in hist[:i]):
-                key = K_ABANDON
-            rec.violation('blocked-on-receive-with-nothing-more-to-come',
-                          dict(wit0, step=i, op=hist[i], outcome=res.outcome, receive_calls=res.receive_calls,
-                               receive_after_script=res.receive_after_script), known_key=key)
-        else:
-            rec.violation('app-failed', dict(wit0, status=res.status, outcome=res.outcome, exc=repr(res.exc),
-                                             problems=res.problems[:3], steps_done=i))
+    parked = res.outcome in ('blocked', 'steps') and len(done) < len(hist)
+    if not parked and (res.outcome != 'done' or res.status != 200 or len(done) != len(hist) or res.problems):
+        rec.violation('app-failed', dict(wit0, status=res.status, outcome=res.outcome, exc=repr(res.exc),
+                                         problems=res.problems[:3], steps_done=len(done)))
         return False
     m = BodyModel(wire, cl)
     first = events[0].get('body', b'')
@@ -542,7 +527,9 @@ def _asgi_case(rec, cfg, hist):
     tell_off = 0
     tell_ok = True
     closed = False
-    for i, (op, (r, (eof, tell))) in enumerate(zip(hist, ctx.log)):
+    abandoned = False       # an iteration was left before it finished: a new iteration may be refused
+    armed = False           # ... and it was left right after the final event's body (classifier of K_ABANDON)
+    for i, (op, (r, (eof, tell))) in enumerate(zip(hist, done)):
         findings = []          # (kind, fatal, detail, key)
         k = op[0]
         rec.count('mon.asgi.op.' + k)
@@ -550,10 +537,12 @@ def _asgi_case(rec, cfg, hist):
         reported_end = False
         if r[0] == 'exc':
             got = r[1]
-            if not closed:
-                findings.append(('operation-raised', True, r[1], None))
-            else:
+            if closed:
                 rec.count('asgi.raised_after_close')
+            elif abandoned and k in ('iter', 'iterk') and r[1].startswith('OperationNotAllowed'):
+                rec.count('asgi.iteration_refused_after_abandoned_iteration')
+            else:
+                findings.append(('operation-raised', True, r[1], None))
         elif r[0] == 'runaway':
             findings.append(('iteration-does-not-terminate', True, r[1], None))
         else:
@@ -586,8 +575,16 @@ def _asgi_case(rec, cfg, hist):
                 if op[2] == 'exhaust':
                     m.discard_rest()
                     reported_end = True
-                else:
+                elif op[2] == 'close':
                     closed = True
+                else:
+                    reported_end = ended_it and not fs
+                    if out and not ended_it:
+                        abandoned = True
+                        rec.count('branch.asgi.iteration_abandoned')
+                        if m.cur.pos > sum(len(x) for x in out):
+                            rec.count('branch.asgi.iteration_abandoned_after_reads')
+                        armed = armed or _abandoned_on_final_event(m, events, cl, out, ended_it)
             elif k == 'exhaust':
                 m.discard_rest()
                 reported_end = True
@@ -653,6 +650,21 @@ def _asgi_case(rec, cfg, hist):
                 stop = True
         if stop:
             return False
+    if parked:
+        # the application is parked on receive() although the script has nothing more to deliver
+        i = len(done)
+        op = hist[i]
+        slot = ctx.log[i] if i < len(ctx.log) else None
+        if op[0] == 'iterk' and op[2] == 'exhaust' and isinstance(slot, list) and slot[1] is not None:
+            out, ended_it = slot[1]
+            fs = m.take(b''.join(out), None, empty_ok=True)
+            if not fs:
+                armed = armed or _abandoned_on_final_event(m, events, cl, out, ended_it)
+        key = K_ABANDON if (armed and res.outcome == 'blocked' and not closed) else None
+        rec.violation('blocked-on-receive-with-nothing-more-to-come',
+                      dict(wit0, step=i, op=op, outcome=res.outcome, receive_calls=res.receive_calls,
+                           receive_after_script=res.receive_after_script), known_key=key)
+        return False
     return True
 
 
@@ -690,10 +702,12 @@ W_BODIES = [b'', b'a', b'ab\n', b'a\nb\nc', b'\n\nxy', b'abcdefg\n']
 W_TRAILING = b'XY\nZ'
 
 A_OPS = [('read', None), ('read', -1), ('read', 0), ('read', 1), ('read', 2), ('read', 100), ('readall',),
-         ('iter',), ('iterk', 1, 'exhaust'), ('iterk', 1, 'close'), ('exhaust',), ('close',)]
+         ('iter',), ('iterk', 1, 'exhaust'), ('iterk', 1, 'close'), ('iterk', 1, 'none'), ('iterk', 1, 'break'),
+         ('exhaust',), ('close',)]
 A_OPS_PAIRS = [('read', None), ('read', 0), ('read', 1), ('read', 2), ('read', 100), ('iter',), ('iterk', 1, 'exhaust'),
-               ('exhaust',), ('close',)]
-A_OPS_SMALL = [('read', 1), ('read', 2), ('read', 3), ('readall',), ('iter',), ('exhaust',), ('iterk', 2, 'exhaust')]
+               ('iterk', 1, 'none'), ('exhaust',), ('close',)]
+A_OPS_SMALL = [('read', 1), ('read', 2), ('read', 3), ('readall',), ('iter',), ('exhaust',), ('iterk', 2, 'exhaust'),
+               ('iterk', 1, 'break')]
 A_BODIES = [b'', b'a', b'ab\n', b'abcde']
 
 
@@ -897,22 +911,11 @@ def random_asgi(rng):
         elif r < 0.78:
             ops.append(('iter',))
         elif r < 0.86:
-            ops.append(('iterk', rng.randint(0, 3), rng.choice(['exhaust', 'exhaust', 'close'])))
+            ops.append(('iterk', rng.randint(0, 3), rng.choice(['exhaust', 'close', 'none', 'none', 'break', 'break'])))
         elif r < 0.95:
             ops.append(('exhaust',))
         else:
             ops.append(('close',))
-    # repair towards the documented usage rule: drop iteration that would follow a partial read
-    while not legal_asgi(ops):
-        clean = True
-        for j, op in enumerate(ops):
-            if op[0] in ('iter', 'iterk') and not clean:
-                ops[j] = ('exhaust',)
-                break
-            if op[0] == 'read' and op[1] is not None and op[1] > 0:
-                clean = False
-            elif op[0] in ('readall', 'exhaust', 'close') or (op[0] == 'read' and op[1] in (None, -1)):
-                clean = True
     return (events, clh, cl, tag), tuple(ops)
 
 
@@ -929,13 +932,14 @@ def run(rec):
                 '(blocking, short reads) x every history up to length H over 15 operation shapes on req.bounded_stream, '
                 'pipelined bytes after the body; ASGI: bodies x every chunking (incl. empty chunks, missing body/more_body '
                 'keys) x every way to end or cut the script (final event shapes, http.disconnect at every position, '
-                'nothing after Content-Length) x Content-Length class x every legal history up to length H over 12 '
-                'operation shapes on req.stream; each history is followed by a final read(); then random bodies to '
+                'nothing after Content-Length) x Content-Length class x every history up to length H over 14 operation '
+                'shapes on req.stream (incl. sized read -> iteration abandoned after k chunks by break/aclose -> read); each history is followed by a final read(); then random bodies to '
                 '300 bytes / histories to 12 operations. non-trivial = history of >= 2 operations (plus the final read); '
                 'distinct by (stack, configuration, history)')
     rec.assumptions = ['oracle vlib/models/c07_stream.py (flat cursor over wire[:Content-Length])',
-                       'ASGI histories respect the documented rule: iteration and read() are only mixed after one of '
-                       'them consumed the whole body, or after exhaust()/close()',
+                       'ASGI: read() and iteration are never used while the other is in progress; an `async for` that was '
+                       'left with break / an iterator that was closed is over, so reads may follow it (and a sized read may '
+                       'precede an iteration); a new iteration after an abandoned one may be refused with OperationNotAllowed',
                        'a PEP 3333 server normally blocks until n bytes or EOF; servers returning short reads are a '
                        'separately reported class',
                        'invalid / negative Content-Length values and read sizes < -1 are outside the statement',
@@ -961,7 +965,6 @@ def run(rec):
                 rec.case(('w', cfg, h))
     # ---------------- ASGI bounded-exhaustive
     HA = 2 if quick else 3
-    n_illegal = 0
     for body in A_BODIES:
         comps = compositions(len(body), with_empty=True)
         if len(body) >= 5:
@@ -970,17 +973,15 @@ def run(rec):
         hs += list(itertools.product(A_OPS_PAIRS if quick else A_OPS, repeat=2))
         if not quick:
             hs += list(itertools.product(A_OPS_PAIRS, repeat=3))
-        legal = [h for h in hs if legal_asgi(h)]
-        n_illegal += len(hs) - len(legal)
-        small_hists = [h for h in itertools.product(A_OPS_SMALL, repeat=HA + 1) if legal_asgi(h)]
+        small_hists = list(itertools.product(A_OPS_SMALL, repeat=HA + 1))
         for ci, cfg in enumerate(asgi_configs(body, comps)):
-            for h in legal:
+            for h in hs:
                 idx += 1
                 if idx % rec.nshards != rec.shard:
                     continue
                 asgi_case(rec, cfg, h)
                 rec.case(('a', cfg, h) if nontrivial(h) else None)
-            if ci % (8 if quick else 16) == 0:
+            if ci % (12 if quick else 24) == 0:
                 for h in small_hists:
                     idx += 1
                     if idx % rec.nshards != rec.shard:
@@ -992,12 +993,11 @@ def run(rec):
         rec.note('exhaustive within bounds: WSGI %d bodies x Content-Length classes x server styles %r, histories <= %d over %d '
                  'op shapes + length %d over %d shapes; ASGI %d bodies, all chunkings (every %s for the 5-byte body) x all '
                  'script endings x Content-Length classes, single operations over %d shapes, pairs over %d shapes%s, '
-                 'length %d over %d shapes on every %dth script; %d history shapes skipped as outside the documented '
-                 'iteration/read rule' % (len(W_BODIES), shorts, HW, len(W_OPS), HW + 1, len(W_OPS_SMALL), len(A_BODIES),
-                                          'third' if quick else 'second', len(A_OPS),
-                                          len(A_OPS_PAIRS if quick else A_OPS),
-                                          '' if quick else ', triples over %d shapes' % len(A_OPS_PAIRS),
-                                          HA + 1, len(A_OPS_SMALL), 8 if quick else 16, n_illegal))
+                 'length %d over %d shapes on every %dth script'
+                 % (len(W_BODIES), shorts, HW, len(W_OPS), HW + 1, len(W_OPS_SMALL), len(A_BODIES),
+                    'third' if quick else 'second', len(A_OPS), len(A_OPS_PAIRS if quick else A_OPS),
+                    '' if quick else ', triples over %d shapes' % len(A_OPS_PAIRS),
+                    HA + 1, len(A_OPS_SMALL), 12 if quick else 24))
     # ---------------- random
     rng = rec.rng
     k = 0
@@ -1025,7 +1025,8 @@ def run(rec):
                     ('class.wsgi.cl.long', 50), ('class.wsgi.short_read_server', 50),
                     ('class.wsgi.pipelined_bytes_after_body', 500),
                     ('mon.asgi.op.read', 2000), ('mon.asgi.op.readall', 200), ('mon.asgi.op.iter', 200),
-                    ('mon.asgi.op.iterk', 100), ('mon.asgi.op.exhaust', 200), ('mon.asgi.liveness', 2000),
+                    ('mon.asgi.op.iterk', 100), ('branch.asgi.iteration_abandoned', 300),
+                    ('branch.asgi.iteration_abandoned_after_reads', 100), ('mon.asgi.op.exhaust', 200), ('mon.asgi.liveness', 2000),
                     ('mon.asgi.eof', 2000), ('mon.asgi.tell', 2000),
                     ('class.asgi.cl.absent', 50), ('class.asgi.cl.exact', 50), ('class.asgi.cl.short', 50),
                     ('class.asgi.cl.long', 50), ('class.asgi.ended_by.disconnect', 100),
